@@ -46,12 +46,26 @@ func Run(goBin, dir string, sources []string, parallel int) ([]Outcome, error) {
 // RunN is like Run but executes every program runs times with different
 // GOMAXPROCS values and marks the programs whose behaviour varied.
 func RunN(goBin, dir string, sources []string, parallel, runs int) ([]Outcome, error) {
+	return RunExtra(goBin, dir, sources, parallel, runs, nil)
+}
+
+// RunExtra is like RunN; extra maps paths relative to the module root (module
+// "progs") to the content of additional Go files, for example a package that
+// mirrors the native package given to scriggo.
+func RunExtra(goBin, dir string, sources []string, parallel, runs int, extra map[string]string) ([]Outcome, error) {
 	outs := make([]Outcome, len(sources))
 	if err := os.MkdirAll(dir, 0o755); err != nil {
 		return nil, err
 	}
 	if err := os.WriteFile(filepath.Join(dir, "go.mod"), []byte("module progs\n\ngo 1.21\n"), 0o644); err != nil {
 		return nil, err
+	}
+	for name, content := range extra {
+		p := filepath.Join(dir, name)
+		os.MkdirAll(filepath.Dir(p), 0o755)
+		if err := os.WriteFile(p, []byte(content), 0o644); err != nil {
+			return nil, err
+		}
 	}
 	alive := make([]bool, len(sources))
 	for i, src := range sources {
